@@ -62,4 +62,40 @@ CLAIMED["C20"] = dict(
     technique="TLA+ padding/state-machine spec + TLC exhaustive laws over lengths + TLC trace validation of recorded issuer histories",
     ref="5/C20")
 
+CLAIMED["C09"] = dict(
+    text="Attester.tla models the attester as the code is written (client-state cache, the two per-client maps, writes in the "
+         "code's order, one action per public call) and states the property declaratively over a ghost log of accepted pairs; "
+         "TLC checks FunctionalBinding, StateIsLog, NoSpuriousReject, UnverifiedRefused, RepeatAndFreshAccepted and "
+         "RejectKeepsBindings on the complete reachable state graph (all histories of every length for the constants). "
+         "Every behaviour up to depth 3 (thorough 4) generated by TLC and long seeded random histories over a larger world are "
+         "executed on a real RateLimitedAttester with a recording cache, and TLC validates the recorded events - verdict of "
+         "every call, registered clients, a snapshot of every client's clientIndices after every step - against the same actions.",
+    note="Constants: 2 clients, 3 origins (two sharing an index key), 2-3 anon IDs on the specification; 8 clients, 6 origins, 5 "
+         "anon IDs in recorded histories. Cheap history steps compute the issuer-blinded key with the library's own blinding "
+         "function (checked against the independent reference each time); a sample of histories runs full issuance.",
+    technique="TLA+ spec + TLC complete state graph + TLC-generated behaviours replayed on the real attester + TLC trace validation with state snapshots",
+    ref="5/C09")
+CLAIMED["C06"] = dict(
+    text="Attester.tla's VerifyRequest action accepts exactly the authentic request class and registers state only then; TLC "
+         "checks AcceptOnlyAuthentic, RejectLeavesCache, PutOnlyOnFirstAccept and RegisteredOnlyVerified over the complete state "
+         "graph. All TLC behaviours up to depth 3 and sweeps over real requests - every listed corruption, each bit (quick: one "
+         "seeded bit per byte) of every field, foreign-key/foreign-content/short/long/zero/swapped signatures, wrong blind, wrong "
+         "client, malformed client keys, alone and with accepted state present - are executed with a recording cache and "
+         "validated by TLC (verdict, Put count, registered set, state snapshots).",
+    note="The request class (what is true of the request) is known to the harness by construction; 'rejected' for corrupted "
+         "requests can fail spuriously only with probability <= 2^-100.",
+    technique="TLA+ spec + TLC model checking + TLC-generated behaviours and corruption sweeps replayed on the real attester + TLC trace validation",
+    ref="5/C06")
+CLAIMED["C08"] = dict(
+    text="Algebra.tla gives key terms a normal form (base key + exponent per blinding factor); over it TLC checks IndexStable (the "
+         "ID term contains no request blind) and IndexInjective (equal IDs iff same client and index key). Recorded histories with "
+         "full issuance (fresh blind, nonce, challenge per request) and random histories are validated by TLC: logged IDs are "
+         "interned and must be equal exactly when the specification's terms are equal; each ID must equal the harness's "
+         "independent HKDF-SHA-384 / RFC 9380 XMD / crypto/elliptic reference and the issuer's second return value the reference "
+         "issuer-blinded key.",
+    note="Hashes, HKDF and group operations are uninterpreted in TLA+; their concrete values are checked only against the "
+         "harness's independent reference on the sampled clients, index keys and blinds.",
+    technique="TLA+ symbolic blinding algebra + TLC invariants + TLC trace validation of interned IDs with an independent HKDF/XMD reference",
+    ref="5/C08")
+
 NOT_YET = "check not built yet in this round (see DESIGN.md section 11 for the build order); no claim is made"
